@@ -136,7 +136,7 @@ theorem refSpecs_fine : ∀ (refs : List Reference) (i : Nat), ∀ b ∈ refSpec
     simp only [refSpecs, List.mem_cons] at h
     rcases h with rfl | h
     · exact sub_fine "REFERENCE".toList kREF (by decide) (by decide) _ _
-        (fun kd hkd => ⟨(refs_OK (r :: rs) i ⟨"REFERENCE".toList, Location.itoa (i + 1) ++ "  ".toList ++ r.range, refSubs r⟩
+        (fun kd hkd => ⟨(refs_OK (r :: rs) i ⟨"REFERENCE".toList, refNum i r ++ "  ".toList ++ r.range, refSubs r⟩
           (by rw [refSpecs]; exact List.mem_cons_self)).2 kd hkd, refSubs_noNl r kd hkd⟩)
     · exact refSpecs_fine rs (i + 1) b h
 
